@@ -96,6 +96,19 @@ int main(int argc, char** argv) {
           for (auto& blk : root.kids[2].kids) for (size_t i = 0; i + 1 < blk.kids.size(); i += 2) if (blk.kids[i].is_uint() && blk.kids[i].arg == 4 && !blk.kids[i + 1].kids.empty()) { Node dup = blk.kids[i + 1].kids[0]; blk.kids[i + 1].kids.push_back(dup); edited++; }
           if (!edited) { fprintf(stderr, "pool file N: no address-event array found\n"); return done(2); }
           add("N", encode(root)); }
+        { // O: written by a producer that does not de-duplicate its tables: in every block the first IP address appears a second time at index 1 and every
+          // address index >= 1 (records, signatures, malformed-message data) is shifted accordingly - the resolved content equals that of file B
+          Node root = parse_exact(pool[1].bytes); int edited = 0;
+          auto bump = [&](Node& m, uint64_t key) { for (size_t j = 0; j + 1 < m.kids.size(); j += 2) if (m.kids[j].is_uint() && m.kids[j].arg == key && m.kids[j + 1].is_uint() && m.kids[j + 1].arg >= 1) m.kids[j + 1] = mk_uint(m.kids[j + 1].arg + 1); };
+          for (auto& blk : root.kids[2].kids) for (size_t i = 0; i + 1 < blk.kids.size(); i += 2) { if (!blk.kids[i].is_uint()) continue; Node& v = blk.kids[i + 1];
+              if (blk.kids[i].arg == 2) for (size_t t = 0; t + 1 < v.kids.size(); t += 2) { if (!v.kids[t].is_uint()) continue; Node& tab = v.kids[t + 1];
+                  if (v.kids[t].arg == 0 && !tab.kids.empty()) { tab.kids.insert(tab.kids.begin() + 1, tab.kids[0]); edited++; }
+                  if (v.kids[t].arg == 3) for (auto& sig : tab.kids) bump(sig, 0); if (v.kids[t].arg == 8) for (auto& md : tab.kids) bump(md, 0); }
+              if (blk.kids[i].arg == 3) for (auto& qr : v.kids) bump(qr, 1); if (blk.kids[i].arg == 4) for (auto& ae : v.kids) bump(ae, 2); if (blk.kids[i].arg == 5) for (auto& mm : v.kids) bump(mm, 1); }
+          if (!edited) { fprintf(stderr, "pool file O: no ip table found\n"); return done(2); }
+          add("O", encode(root));
+          if (!pool.back().valid || pool.back().rf.blocks.size() != pool[1].rf.blocks.size()) { fprintf(stderr, "pool file O invalid\n"); return done(2); }
+          for (size_t b = 0; b < pool[1].rf.blocks.size(); b++) if (strip_bpi(block_dump(pool.back().rf.blocks[b])) != strip_bpi(block_dump(pool[1].rf.blocks[b]))) { fprintf(stderr, "pool file O: block %zu does not resolve to the content of B\n", b); return done(2); } }
         { PoolFile z; z.name = "Z"; z.path = g_dir + "/in_Z_missing"; pool.push_back(z); }
         if (!pool[7].valid || !pool[8].valid || pool[8].rf.blocks.empty() || pool[8].rf.blocks[0].has_bpi) { fprintf(stderr, "pool file I or J invalid\n"); return done(2); }
         size_t N = pool.size();
@@ -160,7 +173,7 @@ int main(int argc, char** argv) {
             run_tuple(tuples[i], R);
         }, [&](uint64_t, const std::string& d, Result& R) { R.violation("merge|harness-crash", d.substr(0, 500), pl.last_note); }, total);
         total.n["evaluations"] = total.n["traces"];
-        total.notes.push_back("pool: A(1 set,1e6 tps,3 blocks) B(2 sets,1e3 tps,reduced hints,4 blocks) C(1e9 tps, QR hints 0) D(minor version 5) E(private version 9) G(300 non-CDNS bytes) H(B cut inside block 2) I(valid, zero blocks) J(10^9 ticks, blocks without block-parameters-index) K(A with two empty blocks) L(no private version) M(A with an address-event key listed twice with different counts) N(the same with equal counts) Z(missing)");
+        total.notes.push_back("pool: A(1 set,1e6 tps,3 blocks) B(2 sets,1e3 tps,reduced hints,4 blocks) C(1e9 tps, QR hints 0) D(minor version 5) E(private version 9) G(300 non-CDNS bytes) H(B cut inside block 2) I(valid, zero blocks) J(10^9 ticks, blocks without block-parameters-index) K(A with two empty blocks) L(no private version) M(A with an address-event key listed twice with different counts) N(the same with equal counts) O(B with a duplicated IP table entry in front of referenced ones) Z(missing)");
         return done(0);
     }
 
